@@ -98,6 +98,25 @@ func init() {
 		l.Def("functions", "Nat", fmt.Sprint(len(keys)))
 		l.Write(c, "Sites.lean")
 		c.check("sites.table", len(keys) > 100 && total["index"] > 0 && total["deref"] > 0, "site table implausibly small")
+		// positions of the functions in the table, as named constants for the model's `invoke`
+		// (namespace MW.Model.Api.Fn): the model never mentions a number, so adding, removing or
+		// renaming a function it does not mention needs no edit of the model
+		lf := NewLean("MW.Model.Api.Fn")
+		names := sitesFnNames(keys)
+		var ks []string
+		for i, k := range keys {
+			lf.Raw(fmt.Sprintf("/-- %s -/\ndef %s : Nat := %d", k, names[i], i))
+			ks = append(ks, "  "+leanStr(k))
+		}
+		lf.Raw("/-- the keys of the anchored functions in table order (position = the constant above) -/")
+		lf.Raw("def keys : List String := [\n" + strings.Join(ks, ",\n") + "]")
+		lf.Def("count", "Nat", fmt.Sprint(len(keys)))
+		lf.Write(c, "ApiFn.lean")
+		uniq := map[string]bool{}
+		for _, n := range names {
+			uniq[n] = true
+		}
+		c.check("sites.fnIndex", len(uniq) == len(keys), "function constant names are not unique")
 		// API error codes (api/errors.go) for the class tokens
 		le := NewLean("MW.Gen.ApiErr")
 		f := c.File("api/errors.go")
@@ -124,6 +143,46 @@ func init() {
 		le.Write(c, "ApiErr.lean")
 		c.check("sites.apiErrCodes", n >= 50, "api/errors.go: fewer than 50 ErrAPI* constants found")
 	})
+}
+
+// sitesFnNames gives every function key "pkg/file.go:[Recv.]name" a Lean identifier: the bare function name
+// when no other anchored function has it, otherwise name_<file>, otherwise Recv_name_<file>.
+func sitesFnNames(keys []string) []string {
+	bare := func(k string) (recv, name, file string) {
+		i := strings.Index(k, ":")
+		file = strings.TrimSuffix(filepath.Base(k[:i]), ".go")
+		name = k[i+1:]
+		if j := strings.Index(name, "."); j >= 0 {
+			recv, name = name[:j], name[j+1:]
+		}
+		return
+	}
+	cnt1, cnt2 := map[string]int{}, map[string]int{}
+	for _, k := range keys {
+		_, n, f := bare(k)
+		cnt1[n]++
+		cnt2[n+"_"+f]++
+	}
+	reserved := map[string]bool{"open": true, "end": true, "from": true, "at": true, "do": true, "in": true, "fun": true, "let": true,
+		"have": true, "show": true, "then": true, "else": true, "if": true, "match": true, "with": true, "where": true, "by": true,
+		"import": true, "namespace": true, "section": true, "variable": true, "def": true, "theorem": true, "instance": true,
+		"keys": true, "count": true}
+	out := make([]string, len(keys))
+	for i, k := range keys {
+		r, n, f := bare(k)
+		switch {
+		case cnt1[n] == 1:
+			out[i] = n
+		case cnt2[n+"_"+f] == 1:
+			out[i] = n + "_" + f
+		default:
+			out[i] = r + "_" + n + "_" + f
+		}
+		if reserved[out[i]] {
+			out[i] += "_"
+		}
+	}
+	return out
 }
 
 func lowerFirst(s string) string {
